@@ -11,7 +11,8 @@ RULE = ("exhaustive walk of the decoder's own decision tree (a node is expanded 
         "(three in thorough) and everywhere below ESC, boundary alphabets of 18/8/3 bytes below that; every node x "
         "full in {False,True} x the three naming modes. find_key on every table sequence alone, x every next byte "
         "(3 encodings) and x every table sequence; scalar values: boundaries + 20k seeded sample (thorough: all "
-        "1 112 064) followed by 6 different continuations; seeded streams of recognised sequences and characters "
+        "1 112 064) followed by 6 different continuations, judged under curtsies, curses and bytes naming; bytes 0x80-0xFF as "
+        "characters under latin-1, cp1252, iso8859-15, koi8-r, cp437, mac-roman x curtsies/curses naming x full; seeded streams of recognised sequences and characters "
         "and of arbitrary bytes under every encoding and mode, each also through the real find_key closure of "
         "Input._send, and again cut into 2-3 pieces handed over by consecutive unget_bytes() calls with and without send(0) "
         "in between; the other spellings of the three codecs (aliases, case/underscore variants, ANSI_X3.4-1968) on every "
@@ -30,10 +31,11 @@ ASSUMPTIONS = ["bytes objects hold values < 256 (the model's List Nat is used on
                "follows, which the text licenses, nothing is claimed about the table sequence that followed it (e.g. "
                "1b5b 1b5b41 -> '\\x1b[\\x1b', '[', 'A'); those (u, v) pairs are counted in the distribution under "
                "'table sequence after a key that is also a prefix'",
-               "READING: 'reports every character as itself' is judged for characters whose encoding is not itself a table "
-               "key; the others (control characters, space, DEL; under latin-1 all of 0x80-0xFF, 162 of 256 characters in "
-               "all) are reported under their table name (<Meta-...>), which is checked as a table sequence "
-               "(theorem C03_chars_table_key)",
+               "READING: 'reports every character as itself' is judged, per naming mode, for characters whose encoding has no "
+               "name in THAT mode's table; under curtsies naming the others (control characters, space, DEL; under latin-1 "
+               "all of 0x80-0xFF, 162 of 256 characters in all) are reported under their table name (<Meta-...>), checked "
+               "as a table sequence (theorem C03_chars_table_key); under curses naming only the 38 CURSES_NAMES are excepted, "
+               "so the latin-1 (cp1252, ...) characters 0x80-0xFF must come back as themselves; bytes naming: the bytes",
                "'asks for more input only while ...' is judged on prefixes of input made of recognised sequences and valid "
                "characters (theorem C03_waits_only_when_growable); on other bytes (e.g. E0 41) the decoder may wait "
                "without a possible completion - outside the property's domain",
@@ -274,24 +276,62 @@ def oracle_table(enc, u, rest, rest_is_units, modes=tuple(MODES)):
     return bad
 
 
+MODE_TABLE = {"curtsies": ev.CURTSIES_NAMES, "curses": ev.CURSES_NAMES}
+
+
 def oracle_char(enc, c, rest):
-    """a validly encoded character that is not itself a table key is reported as itself"""
+    """a validly encoded character is reported as itself under every naming mode in which its encoding has no table
+    name (curtsies naming: CURTSIES_NAMES; curses naming: the 38 CURSES_NAMES only - so under latin-1 the characters
+    0x80..0xFF, <Meta-..> keys in curtsies naming, are themselves in curses naming); bytes naming: the bytes"""
     bad = []
     bs = char_bytes(c, enc)
-    if bs is None or bs in ev.CURTSIES_NAMES or bs in ev.CURSES_NAMES:
+    if bs is None:
         return bad
-    for i in range(1, len(bs)):
-        try:
-            if kc.real_get_key(bs[:i], enc, "curtsies", False) is not None:
-                bad.append(("a character is broken up", None))
-        except Exception as e:  # noqa: BLE001
-            bad.append(("proper prefix of a character raises %s" % type(e).__name__, None))
-    for mode in ("curtsies", "curses"):
+    in_any = bs in ev.CURTSIES_NAMES or bs in ev.CURSES_NAMES
+    if in_any and rest and (kc.is_table_prefix(bs) or (enc == "utf8" and len(bs) == 1 and bs[0] >= 0x80)):
+        return bad          # a key that is also a prefix may merge with what follows (oracle_table judges those)
+    if not in_any:
+        for i in range(1, len(bs)):
+            try:
+                if kc.real_get_key(bs[:i], enc, "curtsies", False) is not None:
+                    bad.append(("a character is broken up", None))
+            except Exception as e:  # noqa: BLE001
+                bad.append(("proper prefix of a character raises %s" % type(e).__name__, None))
+    for mode in ("curtsies", "curses", "bytes"):
+        if mode != "bytes" and bs in MODE_TABLE[mode]:
+            continue        # it has a table name in this naming mode
+        want = bs if mode == "bytes" else chr(c)
         st, r = fk(bs + rest, enc, mode)
         if st == "raise":
             bad.append(("find_key raised %s on a character" % type(r.exc).__name__, "D12" if is_d12(enc, r.exc, r.at) else None))
-        elif r is None or r[0] != chr(c) or r[1] != bs or r[2] != rest:
-            bad.append(("a character is not reported as itself", None))
+        elif r is None or r[0] != want or r[1] != bs or r[2] != rest:
+            bad.append(("a character is not reported as itself under %s naming: %r" % (mode, None if r is None else r[0]), None))
+    return bad
+
+
+SINGLE_BYTE_ENCS = ["latin-1", "cp1252", "iso8859-15", "koi8-r", "cp437", "mac-roman"]   # beyond latin-1: real code only
+
+
+def oracle_high_byte(a):
+    """every single-byte encoding: a byte 0x80..0xFF that decodes to a character and has no table name in the naming
+    mode is reported as that character, buffered (full=False) and exhausted (full=True) alike"""
+    enc, b, full = a
+    bs = bytes([b])
+    try:
+        ch = bs.decode(enc)
+    except UnicodeDecodeError:
+        return []
+    bad = []
+    for mode in ("curtsies", "curses"):
+        if bs in MODE_TABLE[mode]:
+            continue
+        try:
+            r = kc.real_get_key(bs, enc, mode, full)
+        except Exception as e:  # noqa: BLE001
+            r = "raised " + type(e).__name__
+        if r != ch:
+            bad.append(("under %s, %s naming, full=%s the character %r (byte %02x) is reported as %r, not as itself"
+                        % (enc, mode, full, ch, b, r), None))
     return bad
 
 
@@ -681,6 +721,14 @@ def check(ctx, search=False):
         for it, b in zip(items, kc.par_map(w_char, items, procs)):
             if b:
                 report(ctx, b, ("findkey", it[0], "curtsies", 0, hx(char_bytes(it[1], it[0]) + it[2])))
+    # ---- single-byte encodings: every high byte that is a character, both naming modes, buffered and exhausted ----------
+    items = [(enc, b, full) for enc in SINGLE_BYTE_ENCS for b in range(0x80, 0x100) for full in (False, True)]
+    for it, bads in zip(items, map(oracle_high_byte, items)):
+        case = ("getkey", it[0], "curses", int(it[2]), "%02x" % it[1])
+        ctx.count(case, nontrivial=True, tag="high-byte-character")
+        for what, fp in bads:
+            ctx.violation(what, case, fp)
+    ctx.exhaustive.append("bytes 0x80-0xFF as characters under %s x curtsies/curses naming x full: %d" % (", ".join(SINGLE_BYTE_ENCS), len(items)))
     # ---- tie 4 + stream oracle ------------------------------------------------------------------------------
     streams = random_streams(ctx, 6000 if ctx.thorough else 1200)
     cases = [("segment", enc, mode, 0, hx(b"".join(units))) for enc, units, kind in streams for mode in MODES]
@@ -766,7 +814,7 @@ def replay(payload):
                     expected=burst_expected(enc, boundary, k, u)[boundary - k - 2:boundary - k + 4],
                     oracle=oracle_burst((enc, pt, boundary, k, u)))
     op, enc, mode, full, h = c
-    out = dict(case=c, implementation=impl(tuple(c)))
+    out = dict(case=c, implementation=impl(tuple(c)), by_naming_mode={m: impl((op, enc, m, full, h)) for m in MODES})
     bs = unhx(h)
     if op == "getkey":
         out["oracle"] = oracle_node(enc, bs, bool(full))
